@@ -95,6 +95,8 @@ def canon(o, _memo=None):
         return res
     if o is None:
         return ["none"]
+    if isinstance(o, np.generic):
+        return ["np." + o.dtype.name, repr(o.item())]
     if isinstance(o, bool):
         return ["bool", o]
     if isinstance(o, int):
@@ -103,8 +105,6 @@ def canon(o, _memo=None):
         return ["float", repr(o)]
     if isinstance(o, complex):
         return ["complex", repr(o.real), repr(o.imag)]
-    if isinstance(o, np.generic):
-        return ["np." + o.dtype.name, repr(o.item())]
     if isinstance(o, Fraction):
         return ["frac", str(o.numerator), str(o.denominator)]
     if isinstance(o, str):
